@@ -32,6 +32,9 @@ pub struct Cell {
 const RMS_OUT: f64 = 1.25;
 const RMS_BUMP: f64 = 2.2;
 const MEAN_MAX: f64 = 0.75;
+/// raw-estimate regime (n >= 6 m): no empirical table is involved and the estimator is unbiased in
+/// theory; the unchanged tree measures |mean| <= 0.05 x RE there (noise level, 6000..60000 seeds)
+const MEAN_MAX_RAW: f64 = 0.1;
 const EXC_FRAC: f64 = 0.05;
 
 fn relative_error(b: usize) -> f64 {
@@ -131,10 +134,11 @@ fn judge(b: usize, n: u64, errs: &[f64]) -> CellStat {
             format!("RMS relative error {:.3} x relative_error() over {} seeds exceeds the allowed {} x (b = {}, n = {} = {:.2} m)", ssq.mean.sqrt(), r.len(), bound, b, n, n as f64 / m),
         ));
     }
-    if s.mean.abs() - Z * s.se > MEAN_MAX {
+    let mean_max = if n as f64 >= 6.0 * m { MEAN_MAX_RAW } else { MEAN_MAX };
+    if s.mean.abs() - Z * s.se > mean_max {
         flags.push((
             format!("mean:{}", regime),
-            format!("mean relative error {:+.3} x relative_error() (s.e. {:.3}) over {} seeds is not close to zero (allowed |mean| <= {}) (b = {}, n = {} = {:.2} m)", s.mean, s.se, r.len(), MEAN_MAX, b, n, n as f64 / m),
+            format!("mean relative error {:+.3} x relative_error() (s.e. {:.3}) over {} seeds is not close to zero (allowed |mean| <= {}) (b = {}, n = {} = {:.2} m)", s.mean, s.se, r.len(), mean_max, b, n, n as f64 / m),
         ));
     }
     if binom_above(exceed, r.len() as u64, EXC_FRAC, Z) {
@@ -189,7 +193,8 @@ fn fractions(tier: Tier, seed: u64, b: usize) -> Vec<f64> {
 
 fn seeds_for(tier: Tier, b: usize, source: Source) -> u32 {
     let base = match b {
-        4..=10 => 4000,
+        4..=7 => 40_000,
+        8..=10 => 4000,
         11..=14 => 1600,
         _ => 400,
     };
@@ -286,11 +291,25 @@ fn run_cells(ctx: &Ctx) {
         }
     }
     ctx.put_extra("worst_abs_mean_cell_per_b", json!(worst_mean_per_b));
+    // the same restricted to the raw-estimate regime (n >= 6 m), where no empirical table is involved
+    let mut worst_raw: BTreeMap<u64, serde_json::Value> = BTreeMap::new();
+    for r in &rows {
+        if r["n_over_m"].as_f64().unwrap() < 6.0 {
+            continue;
+        }
+        let b = r["b"].as_u64().unwrap();
+        let m = r["mean_over_re"].as_f64().unwrap().abs();
+        let cur = worst_raw.get(&b).map(|v| v["mean_over_re"].as_f64().unwrap().abs()).unwrap_or(-1.0);
+        if m > cur {
+            worst_raw.insert(b, r.clone());
+        }
+    }
+    ctx.put_extra("worst_abs_mean_cell_per_b_raw_regime", json!(worst_raw));
     ctx.put_extra("cells_measured", json!(rows.len()));
     ctx.put_extra("worst_rms_cells_per_b", json!(per_b));
     let worst_mean = rows.iter().max_by(|a, b| a["mean_over_re"].as_f64().unwrap().abs().partial_cmp(&b["mean_over_re"].as_f64().unwrap().abs()).unwrap()).cloned();
     ctx.put_extra("worst_mean_cell", json!(worst_mean));
-    ctx.put_extra("bounds", json!({"rms_outside_bump": RMS_OUT, "rms_in_bump(0.5m..2m)": RMS_BUMP, "abs_mean": MEAN_MAX, "fraction_beyond_3RE": EXC_FRAC, "integer_allowance_units": 2}));
+    ctx.put_extra("bounds", json!({"rms_outside_bump": RMS_OUT, "rms_in_bump(0.5m..2m)": RMS_BUMP, "abs_mean": MEAN_MAX, "abs_mean_raw_regime(n>=6m)": MEAN_MAX_RAW, "fraction_beyond_3RE": EXC_FRAC, "integer_allowance_units": 2}));
     // register the cells as distinct non-trivial cases
     let keys: Vec<u64> = results.iter().flat_map(|(gi, per_cp)| { let (b, src, cps) = &groups[*gi]; (0..per_cp.len()).map(move |i| hash64(&(*b, cps[i], *src))) }).collect();
     ctx.run_indexed("cells", keys.len(), |i, acc| {
@@ -435,8 +454,8 @@ pub fn checks() -> Vec<Box<dyn DynCheck>> {
 }
 
 pub fn run(ctx: &Ctx) {
-    ctx.set_rule("cells (b, n, source): all 15 precisions; n on a grid of 71 (quick, step 0.1 m up to 6 m) / ~140 (thorough, step 0.05 m) cardinalities from 0.05 m to 50 m, dense around the estimator switch-overs; sources: independent random 64-bit hashes via add_hashed (all b), add(&i) of sequential integers (b <= 14) and add(\"key-i\") of strings (b <= 12, n <= 8m) under seeded SipHash. One trajectory per seed serves all checkpoints of its b; seeds per cell 4000 (b <= 10), 1600 (11..14), 400 (15..18) for random hashes, a quarter of that for the real-hasher sources, x15 in thorough. Per cell, errors (reduced by 2 units for integer effects) normalised by n*relative_error(): RMS <= 1.25 (2.2 for 0.5m <= n <= 2m), |mean| <= 0.75, fraction beyond 3 <= 5 %, each at z = 6, flagged cells re-measured with 4x fresh seeds. exact: empty sketch counts 0; up to 8 adds with b >= 9 counted to within 1 of the distinct registers hit; count() returns for generated register vectors (all equal, one hot, random, half zero, explicit, values up to 255). Non-trivial: every measured cell with n >= 1 (distinct = (b, n, source)); exact cases with distinct registers or a register vector. evaluations = trajectories + cells + exact cases.");
-    ctx.assume("bounds: 'about relative_error()' = 1.25x, 'about twice' = 2.2x, 'close to zero' = 0.75x, 'a few percent' = 5 %; integer effects of 2 units are subtracted from every error");
+    ctx.set_rule("cells (b, n, source): all 15 precisions; n on a grid of 71 (quick, step 0.1 m up to 6 m) / ~140 (thorough, step 0.05 m) cardinalities from 0.05 m to 50 m, dense around the estimator switch-overs; sources: independent random 64-bit hashes via add_hashed (all b), add(&i) of sequential integers (b <= 14) and add(\"key-i\") of strings (b <= 12, n <= 8m) under seeded SipHash. One trajectory per seed serves all checkpoints of its b; seeds per cell 40000 (b <= 7), 4000 (b 8..10), 1600 (11..14), 400 (15..18) for random hashes, a quarter of that for the real-hasher sources, x15 in thorough. Per cell, errors (reduced by 2 units for integer effects) normalised by n*relative_error(): RMS <= 1.25 (2.2 for 0.5m <= n <= 2m), |mean| <= 0.75 (<= 0.1 in the raw-estimate regime n >= 6m, where no empirical table enters), fraction beyond 3 <= 5 %, each at z = 6, flagged cells re-measured with 4x fresh seeds. exact: empty sketch counts 0; up to 8 adds with b >= 9 counted to within 1 of the distinct registers hit; count() returns for generated register vectors (all equal, one hot, random, half zero, explicit, values up to 255). Non-trivial: every measured cell with n >= 1 (distinct = (b, n, source)); exact cases with distinct registers or a register vector. evaluations = trajectories + cells + exact cases.");
+    ctx.assume("bounds: 'about relative_error()' = 1.25x, 'about twice' = 2.2x, 'close to zero' = 0.75x (0.1x for n >= 6m), 'a few percent' = 5 %; integer effects of 2 units are subtracted from every error");
     ctx.run_regressions(&[&Cells, &Exact]);
     run_cells(ctx);
     let t = ctx.tier;
